@@ -179,10 +179,18 @@ def gen_case(rng, cid, families=None, kinds=('mh', 'pt'), allow_saveload=True,
 def build_sampler(c, seed, model):
     prng = random.Random(c.prop_seed)
     doms = {name: dom for name, kind, dom in c.params}
-    props = [F.make(fam, names, doms, prng, **kw) for fam, names, kw in c.props]
+    # parameter lists arrive as lists or as tuples
+    form = c.seed % 2
+    def shaped(fam, names):
+        if F.FAMILIES[fam][1] == 'sphere' or form == 0:
+            return names
+        return tuple(names)
+    props = [F.make(fam, shaped(fam, names), doms, prng, **kw) for fam, names, kw in c.props]
     if getattr(c, 'unlisted', None) is not None:
         props = [p for i, p in enumerate(props) if i != c.unlisted]
     pnames = [p[0] for p in c.params]
+    if form == 1:
+        pnames = tuple(pnames)
     if c.kind == 'mh':
         return MetropolisHastingsSampler(pnames, model, c.nchains, proposals=props, seed=seed)
     ann = DynamicalAnnealer(tau=rng_tau(c), nu=c.ann_nu, Tmax_prior=c.ann_tmax_prior) if c.dynamic else None
